@@ -36,6 +36,7 @@ impl Prop for C18Prop {
             keyings: 1,
             boundary_per_mille: 0,
             huge_one_in: 1200,
+            hub_one_in: 0,
         }
         .gen("C18", seed, idx);
         let big = idx % 200 == 199;
